@@ -48,10 +48,15 @@ class P(FlowFidelity):
         return addr, m1, dsets, tm
 
     def undecodable(self, g, rng, kind, tm, tpls_known):
-        body = bytes(rng.randrange(256) for _ in range(rng.choice([0, 1, 4, 5, 8, 12, 40])))
+        body = bytes(rng.randrange(256) for _ in range(rng.choice([0, 1, 4, 5, 8, 12, 13, 16, 40])))
         if kind == "reserved":
             lo = 4 if self.proto == "ipfix" else 2
-            return g.enc_set(rng.choice([lo, lo + 1, 100, 255]), body)
+            # every reserved id, and in particular those that look like something else (9 and 10 are the version numbers a message starts with)
+            sid = rng.choice([lo, lo + 1, 100, 255, 9, 10, 10, 5, rng.randrange(lo, 256), rng.randrange(lo, 256)])
+            if sid in (9, 10) and rng.random() < 0.7:
+                # ... with a body that would read as a message header followed by sets of installed templates
+                body = struct.pack(">HII", 16 + 4 + 8, 0, 7)[:10] + struct.pack(">I", 1) + struct.pack(">HH", rng.choice(tpls_known), 12) + bytes([6] * 4 + [7] * 4) + body
+            return g.enc_set(sid, body)
         if kind == "unknown":
             if rng.random() < 0.5:   # body that looks like sets of known templates
                 body = struct.pack(">HH", rng.choice(tpls_known), 12) + bytes([66] * 8) + body
@@ -88,7 +93,8 @@ class P(FlowFidelity):
                 line = pre2 + hx(g.enc_msg(tsets + dsets, seq=7))
                 self.meta[line] = (bid2, "full", None); out.append(line)
                 for (t, o) in self.last_tpls:
-                    early = g.enc_set(t.tid, bytes(rng.randrange(256) for _ in range(rng.choice([8, 12, 24]))))
+                    # (lengths that are not multiples of 4 included: nothing may 're-align' by eating the start of the next set)
+                    early = g.enc_set(t.tid, bytes(rng.randrange(256) for _ in range(rng.choice([8, 12, 24, 5, 7, 9, 13]))))
                     for pos in range(len(tsets)):
                         # (not after its own announcement: there it would be a decodable or malformed data set, not an unknown one)
                         if pos > [k for k, (t2, _) in enumerate(self.last_tpls) if t2.tid == t.tid][0]:
@@ -105,8 +111,9 @@ class P(FlowFidelity):
                     ds = [g.enc_set(t.tid, b"".join(g.rand_record(t)[0] for _ in range(2))) for _ in range(2)]
                     line = pre3 + hx(g.enc_msg([ts] + ds, seq=7))
                     self.meta[line] = (bid3, "full", None); out.append(line)
-                    early = g.enc_set(t.tid, bytes(rng.randrange(256) for _ in range(12)))
-                    for sets_ in ([early, ts] + ds, [early, early, ts] + ds):
+                    early = g.enc_set(t.tid, bytes(rng.randrange(256) for _ in range(rng.choice([12, 5, 6, 7, 9]))))
+                    res_ = self.undecodable(g, rng, "reserved", tm, known_ids)
+                    for sets_ in ([early, ts] + ds, [early, early, ts] + ds, [res_, ts] + ds, [res_, ts, ds[0], res_, ds[1]]):
                         line = pre3 + hx(g.enc_msg(sets_, seq=7))
                         self.meta[line] = (bid3, "insert", "unknown id %d, announced by the next set" % t.tid); out.append(line)
                 # SEVERAL undecodable sets (2, 3, 7, 12 of them, mixed kinds) in a row, in front, in the middle and at the end
